@@ -1,9 +1,137 @@
+import ScenicModel.Gen.Pruning
+import ScenicModel.Model.Pruning
 import Driver.Util
-/-! line protocol for the C08 model (stub: replaced when the property's model is built) -/
+/-! line protocol for the pruning model (C08); every configuration is the one regenerated from /repo -/
 namespace Driver.C08
-open Driver
+open Driver Scenic.Pruning
+
+def parseOptRat (s : String) : Option (Option Rat) :=
+  if s == "-" || s == "none" then some none else (parseRat s).map some
+
+def parseOptNat (s : String) : Option (Option Nat) :=
+  if s == "-" then some none else s.toNat?.map some
+
+def parseLeaf : List String → Option Leaf
+  | [c, a, i] => do
+    let c ← parseOptRat c; let a ← parseOptNat a; let i ← i.toNat?
+    pure ⟨c, a, i⟩
+  | _ => none
+
+/-- `L|c|a|i`, `A|c|a|i`, `B+|c|a|i|c|a|i`, `B-|…` -/
+def parseExpr (s : String) : Option Expr :=
+  match s.splitOn "|" with
+  | "L" :: rest => (parseLeaf rest).map Expr.leaf
+  | "A" :: rest => (parseLeaf rest).map Expr.abs1
+  | "B+" :: rest => do
+    let l ← parseLeaf (rest.take 3); let r ← parseLeaf (rest.drop 3); pure (Expr.absBin .add l r)
+  | "B-" :: rest => do
+    let l ← parseLeaf (rest.take 3); let r ← parseLeaf (rest.drop 3); pure (Expr.absBin .sub l r)
+  | _ => none
+
+def parseOp : String → Option CmpOp
+  | "lt" => some .lt | "ltE" => some .ltE | "gt" => some .gt | "gtE" => some .gtE
+  | "eq" => some .eq | "notEq" => some .notEq | "is" => some .is | "isNot" => some .isNot
+  | "in_" => some .in_ | "notIn" => some .notIn | _ => none
+
+def parseChain : List String → Option (List (CmpOp × Expr))
+  | [] => some []
+  | o :: e :: rest => do
+    let o ← parseOp o; let e ← parseExpr e; let r ← parseChain rest
+    pure ((o, e) :: r)
+  | _ => none
+
+def showBound (b : Option Rat) (inf : String) : String :=
+  match b with
+  | some q => showRat q
+  | none => inf
+
+def showBounds (bs : Bounds) : String :=
+  if bs.isEmpty then "ok -" else
+  "ok " ++ ";".intercalate (bs.map fun (t, (lo, hi)) => s!"{t}:{showBound lo "-inf"}:{showBound hi "inf"}")
+
+def parseCell (s : String) : Option Cell :=
+  match s.splitOn "," with
+  | [a, b, c] => do
+    let a ← a.toInt?; let b ← b.toInt?; let c ← c.toInt?
+    pure (a, b, c)
+  | _ => none
+
+def showCell (c : Cell) : String := s!"{c.1},{c.2.1},{c.2.2}"
+
+def showMorph : Morph → String
+  | .same => "same"
+  | .dilate k => s!"dilate {k}"
+  | .erode k => s!"erode {k}"
 
 def handle : List String → String
+  | "bounds" :: first :: rest =>
+    match parseExpr first, parseChain rest with
+    | some f, some r =>
+      (match matchBounds Scenic.Gen.pruneDispatch f r with
+       | .ok bs => showBounds bs
+       | .error _ => "err")
+    | _, _ => "bad-op"
+  | ["norm", p, x] =>
+    match parseRat p, parseRat x with
+    | some p, some x => showRat (normalizeAngle p x)
+    | _, _ => "bad-op"
+  | ["rh", p, bh, oL, oR, th, tL, tR] =>
+    match parseRat p, parseOptRat bh, parseRat oL, parseRat oR, parseOptRat th, parseRat tL, parseRat tR with
+    | some p, some bh, some oL, some oR, some th, some tL, some tR =>
+      let r := relativeHeadingRange Scenic.Gen.rhConfig p bh oL oR th tL tR
+      s!"{showRat r.1} {showRat r.2}"
+    | _, _, _, _, _, _, _ => "bad-op"
+  | ["kept", p, bh, oL, oR, th, tL, tR, lb, ub] =>
+    match parseRat p, parseOptRat bh, parseRat oL, parseRat oR, parseOptRat th, parseRat tL, parseRat tR,
+        parseRat lb, parseRat ub with
+    | some p, some bh, some oL, some oR, some th, some tL, some tR, some lb, some ub =>
+      if rhGuardTrips Scenic.Gen.rhGuardInclusive p oL oR tL tR lb ub then "guard"
+      else if cellPairKept Scenic.Gen.rhConfig Scenic.Gen.rhOverlapOps Scenic.Gen.rhOverlapConj p bh oL oR th
+        tL tR lb ub then "1" else "0"
+    | _, _, _, _, _, _, _, _, _ => "bad-op"
+  | ["erosion", r, d] =>
+    match parseOptRat r, parseOptRat d with
+    | some r, some d =>
+      (match erosionAmount Scenic.Gen.erosionUsesDifference r d with
+       | some e => showRat e
+       | none => "none")
+    | _, _ => "bad-op"
+  | ["vbuf", r, d] =>
+    match parseRat r, parseRat d with
+    | some r, some d => showRat (visibilityBuffer Scenic.Gen.visibilityBufferIsSum r d)
+    | _, _ => "bad-op"
+  | ["erodeit", r, pitch, tp] =>
+    match parseRat r, parseRat pitch, parseRat tp with
+    | some r, some pitch, some tp =>
+      showMorph (erodeMorph Scenic.Gen.erodeCount Scenic.Gen.erodeNegates r pitch tp)
+    | _, _, _ => "bad-op"
+  | ["dilateit", b, pitch, tp] =>
+    match parseRat b, parseRat pitch, parseRat tp with
+    | some b, some pitch, some tp => showMorph (dilateMorph Scenic.Gen.dilateCount b pitch tp)
+    | _, _, _ => "bad-op"
+  | "morph" :: kind :: k :: cells =>
+    match k.toNat?, cells.mapM parseCell with
+    | some k, some cs =>
+      let m : Option Morph := match kind with
+        | "dilate" => some (.dilate k) | "erode" => some (.erode k) | "same" => some .same | _ => none
+      (match m with
+       | some m => let out := applyMorph m cs
+                   if out.isEmpty then "-" else " ".intercalate (out.map showCell)
+       | none => "bad-op")
+    | _, _ => "bad-op"
+  | "retry" :: which :: fuel :: okPitches =>
+    -- conv succeeds exactly at the listed pitches
+    match fuel.toNat?, okPitches.mapM parseRat with
+    | some fuel, some oks =>
+      let cfg : Option RetryCfg := match which with
+        | "erode" => some Scenic.Gen.erodeLoop | "buffer" => some Scenic.Gen.bufferLoop | _ => none
+      (match cfg with
+       | some cfg =>
+         (match retryLoop cfg (fun p => oks.contains p) Scenic.Gen.pruningPitch fuel Scenic.Gen.pruningPitch with
+          | some n => s!"done {n}"
+          | none => "running")
+       | none => "bad-op")
+    | _, _ => "bad-op"
   | _ => "bad-op"
 
 end Driver.C08
